@@ -17,6 +17,7 @@ mode=conc, semaphore kinds — real goroutines, history stamped inside the guard
     run …          => <events> gauge=<peak> free=<k>     events: +t enter, -t exit, !t exit by panic (string), #t by panic (error value), ~t by Goexit, xt refused, et own Return failed
     rogue …        => borrows=<b> returns=<r> errs=<e> free=<k>    (callers that return more than they borrowed)
 kind=pool mode=seq:
+    getdpanic => dpanicked destroyed=<id>  (the destroy callback panicked for the expired head; not expired: as `get`)
     get | getw | getpanic => got <id> fresh=<0|1> destroyed=<ids|-> | wait destroyed=… (reached cond.Wait; taken out
                       again) | waiting destroyed=… (getw: stays blocked) | panicked destroyed=… (create panicked)
     put <id>|@k    => ok id=<x> [woke=<y>|woke=none]   (a waiting Get resumed and took y) ;  putnil => ok
@@ -489,10 +490,25 @@ def runPoolSeq (r : Report) (s : Section) (limit maxAge : Nat) : Report := Id.ru
     r := { r with ops := r.ops + 1 }
     let impl := joinSp l.obs
     let mut evs : List PEv := []
-    match l.op with
+    -- `getdpanic`: destroy panics if Get calls it for the head; otherwise the call is a plain `get`
+    let op := if l.op = ["getdpanic"] ∧ (p.getDestroyPanics now).2 = none then ["get"] else l.op
+    if l.op = ["getdpanic"] ∧ op = ["get"] then r := r.addCover "pool-destroy-panic-armed-but-not-called"
+    match op with
+    | ["getdpanic"] =>
+      let (p', x) := p.getDestroyPanics now
+      r := r.addCover "pool-destroy-panics-count-stays-right"
+      let exp := s!"dpanicked destroyed={csv x.toList}"
+      if exp ≠ impl then r := r.mismatch s.idx l.idx exp impl
+      p := p'
+      match l.obs with
+      | ["dpanicked", ds] =>
+        match obsDestroyed ds with
+        | some dl => evs := dl.map PEv.destroy      -- the resource is gone (unlinked and uncounted); nothing handed out
+        | none => r := r.mismatch s.idx l.idx "parsable-observation" impl
+      | _ => pure ()                                -- the mismatch above names it
     | ["get"] | ["getw"] | ["getpanic"] =>
-      let keep := l.op = ["getw"]
-      let cpanic := l.op = ["getpanic"]
+      let keep := op = ["getw"]
+      let cpanic := op = ["getpanic"]
       let (p', res, panicked) := if cpanic then p.getCreatePanics now else ((p.get now).1, (p.get now).2, false)
       match res with
       | .got item fresh d =>
